@@ -179,6 +179,17 @@ class PAI:
                         base = c.args[0]
                         while isinstance(base, (ast.Subscript, ast.Attribute)):
                             base = base.value
+                        # a temporary holding an element of a parameter (`x0 = x[0]`, `x0, y0 = x[0], y[0]`) stands for the parameter
+                        hops = 0
+                        while isinstance(base, ast.Name) and base.id not in ps and hops < 3:
+                            hops += 1
+                            from .astq import definitions as _defs
+                            vals = [v for _, v, how in _defs(fn.node, base.id) if v is not None]
+                            if len(vals) != 1:
+                                break
+                            base = vals[0]
+                            while isinstance(base, (ast.Subscript, ast.Attribute)):
+                                base = base.value
                         if isinstance(base, ast.Name) and base.id in ps and isinstance(n.value, (ast.Call, ast.BoolOp)):
                             if isinstance(n.value, ast.Call) or (isinstance(n.value, ast.BoolOp) and isinstance(n.value.op, ast.And)):
                                 self.flag_params.setdefault(n.targets[0].id, set()).add(base.id)
@@ -486,9 +497,35 @@ class PAI:
             for t, e in zip(s.targets[0].elts, v.elts):
                 self.bind(t, e, st)
             return [st]
+        if len(s.targets) == 1 and isinstance(s.targets[0], ast.Name) and self._flag_expr(s.value) and v.k == 'PUB':
+            # a derived flag (`both = shx and shy`, `small = size == 0`): its truth is tied to the atoms it is made of,
+            # so that a later `if both:` is decided consistently with them
+            name = s.targets[0].id
+            T, F = self.fork(s.value, st)
+            outs = []
+            for tv, states in ((True, T), (False, F)):
+                for c in states:
+                    self.bind(s.targets[0], v, c, s)
+                    c.val[self.atom_key(ast.Name(id=name, ctx=ast.Load()), c)] = tv
+                    outs.append(c)
+            return outs
         for t in s.targets:
             self.bind(t, v, st, s)
         return [st]
+
+    @staticmethod
+    def _flag_expr(e):
+        """boolean combination (and / or / not) of names and simple comparisons, with at least one connective or comparison"""
+        if not isinstance(e, (ast.BoolOp, ast.UnaryOp, ast.Compare)):
+            return False
+        for n in ast.walk(e):
+            if isinstance(n, (ast.Call, ast.Await, ast.Subscript, ast.Lambda, ast.IfExp, ast.NamedExpr)):
+                return False
+            if isinstance(n, ast.UnaryOp) and not isinstance(n.op, ast.Not):
+                return False
+            if isinstance(n, ast.BinOp):
+                return False
+        return True
 
     def s_AnnAssign(self, s, st):
         if s.value is not None:
